@@ -278,9 +278,11 @@ CHECKS["C15"] = dict(
          "never rewritten, for every cluster size, initial configuration, schedule and sequence of single-voter changes; RSC.conf_one_pending.",
     note="Level: proof for the model (Stages A-C and, at the level of the abstract protocol, Stage D with apply-time single-voter changes), correspondence (lock-step, "
          "generated schedules) for handler = code with a fixed voter set. Membership changes: the quorum / confchange layer is proved and tied; the protocol-level theorem "
-         "(RSC) is about a model written from raft.go / raftexample of which only the configuration part is tied to RawNode (CF / GT / HP lines of the member-* schedules: "
-         "config after each applied conf change, the pendingConfIndex proposal gate, the campaign gate - compared by the lock-step driver); otherwise add/remove/promote schedules are judged by "
-         "the safety predicates on the implementation only; joint configurations entered through the log (EnterJoint/LeaveJoint/AutoLeave) are not in the protocol model; "
+         "(RSC) is about a model written from raft.go / raftexample; the executable config-aware handler RHC.handleC (RH.handle + applied index, pendingConfIndex and the "
+         "configuration folded from the node's own log) is compared with RawNode on EVERY event of the member / member-partition schedules (add / add-learner / promote / remove, "
+         "ApplyConfChange, gates, snapshots carrying a ConfState, restarts), and its two config-reading decisions and config-specific inputs are proved to be RSC steps (RHC.*), but the full "
+         "refinement handleC -> RSC (RL1's simulation re-done over RSC) is NOT proved; the paged / lazy / batch membership profiles are judged by the safety predicates and the CF / GT / HP lines "
+         "(config after each applied conf change, proposal gate, campaign gate); joint configurations entered through the log (EnterJoint/LeaveJoint/AutoLeave) are not in the protocol model; "
          "ReadIndex and leader transfer are outside both. Trusted: Lean kernel (propext, Classical.choice, Quot.sound), the Lean interpreter running the driver, the Go "
          "harness's projection/index shift/event classification, MemoryStorage as the persistence layer (the WAL is C16's subject). Flow control is abstracted "
          "(any true log slice is accepted), timers are not modelled (a tick is classified by its effect).",
